@@ -101,8 +101,46 @@ def cases(ctx):
                 iy, ay = db_yaml(isa, forms, fwd)
                 pipe = deps.Pipeline(ctx, isa, iy, ay)
                 for name, text in kernels(isa, ctx.rng.choice([0, 8, 16])):
-                    case, kernel, dg = deps.build_case(pipe, text, False)
+                    try:
+                        case, kernel, dg = deps.build_case(pipe, text, False)
+                    except Exception as e:  # noqa
+                        ctx.violation("analysis-raises", "the analysis of a load-stage kernel (%s) raises %r: %s" % (name, e, text.replace("\n", " ; ")),
+                                      {"isa": isa, "text": text, "flagdeps": False, "db": {"isa_yaml": iy, "arch_yaml": ay}})
+                        continue
                     case["origin"] = "load-stage family: %s (%s, fwd %s)" % (name, isa, fwd)
                     case["db"] = {"isa_yaml": iy, "arch_yaml": ay}
                     out.append((name, case, kernel, dg, isa))
+    return out
+
+
+def guarded_synthetic(ctx, n, key="analysis-raises", **kw):
+    """depcheck.synthetic(ctx, n, **kw), one kernel at a time: a kernel on which the implementation RAISES (parser, semantics, KernelDG,
+    get_critical_path, the LCD search) is a concrete failing input (reported with the kernel and its database), not a failure of the
+    checking machinery."""
+    import depcheck
+    last = {}
+    orig_build, orig_db = deps.build_case, deps.gen_db
+
+    def build(pipe, text, flagdeps, *a, **k):
+        last.update(isa=pipe.isa, text=text, flagdeps=flagdeps)
+        return orig_build(pipe, text, flagdeps, *a, **k)
+
+    def gen_db(rng, isa):
+        r = orig_db(rng, isa)
+        last["db"] = {"isa_yaml": r[1], "arch_yaml": r[2]}
+        return r
+    out = []
+    deps.build_case, deps.gen_db = build, gen_db
+    try:
+        for _ in range(n):
+            last.pop("text", None)
+            try:
+                out += depcheck.synthetic(ctx, 1, **kw)
+            except Exception as e:  # noqa
+                if "text" not in last:
+                    raise
+                ctx.violation(key, "the analysis of a synthetic kernel raises %r: %s" % (e, last["text"].replace("\n", " ; ")[:300]),
+                              {"isa": last["isa"], "text": last["text"], "flagdeps": last["flagdeps"], "db": last.get("db")})
+    finally:
+        deps.build_case, deps.gen_db = orig_build, orig_db
     return out
